@@ -1,5 +1,38 @@
-(* Wire entry points of the C20 model (stub until the model is built). *)
-From Coq Require Import ZArith List.
-From SG Require Import Base.Sx.
+(* Wire entry points of the C20 model (regression: design matrix, smoothing matrix, normal equations, Opticom). *)
+From Coq Require Import ZArith List Bool QArith Qcanon.
+From SG Require Import Base.Sx Base.QcUtil Model.Gram Model.Regress.
+Import ListNotations.
 Open Scope Z_scope.
-Definition entry_C20 (sub : Z) (a : sx) : sx := sx_err 0.
+
+Definition opt_bind {A B} (o : option A) (f : A -> option B) : option B := match o with Some a => f a | None => None end.
+Notation "'do' x <- o ; k" := (opt_bind o (fun x => k)) (at level 200, x name, o at level 100, k at level 200).
+Definition ret (o : option sx) : sx := match o with Some s => s | None => sx_err 2 end.
+
+(* common tail: (A Ccoded Cspec) + lambda, matrix choice, targets, implementation surpluses, tolerance
+   -> (A Ccoded Cspec residual_ok_with_coded_C residual_ok_with_spec_C) *)
+Definition finish (A Cc Cs : list (list Qc)) (lam : Qc) (use_C : bool) (y alpha : list Qc) (tol : Qc) : sx :=
+  let r := right_vector A y in
+  Lv [ of_LLQc A; of_LLQc Cc; of_LLQc Cs;
+       sx_bool (residual_ok (left_matrix A lam use_C Cc) r alpha tol);
+       sx_bool (residual_ok (left_matrix A lam use_C Cs) r alpha tol) ].
+
+Definition entry_C20 (sub : Z) (a : sx) : sx :=
+  match sub, a with
+  (* uniform: (levelvec lambda use_C data targets alpha tol) *)
+  | 0, Lv [lv; lam; useC; data; y; al; tol] => ret (
+      do lv <- get_LZ lv; do lam <- get_Qc lam; do useC <- get_bool useC; do data <- get_LLQc data;
+      do y <- get_LQc y; do al <- get_LQc al; do tol <- get_Qc tol;
+      Some (finish (design_uniform lv data) (C_matrix_uniform true lv) (C_matrix_uniform false lv) lam useC y al tol))
+  (* dimension-wise: (stripes lambda use_C data targets alpha tol) *)
+  | 1, Lv [st; lam; useC; data; y; al; tol] => ret (
+      do st <- get_LLQc st; do lam <- get_Qc lam; do useC <- get_bool useC; do data <- get_LLQc data;
+      do y <- get_LQc y; do al <- get_LQc al; do tol <- get_Qc tol;
+      Some (finish (design_nonuniform st data) (C_matrix_dw_coded st) (C_matrix_dw_spec st) lam useC y al tol))
+  (* smoothing matrices only *)
+  | 2, Lv [lv] => ret (do lv <- get_LZ lv; Some (Lv [of_LLQc (C_matrix_uniform true lv); of_LLQc (C_matrix_uniform false lv)]))
+  | 3, Lv [st] => ret (do st <- get_LLQc st; Some (Lv [of_LLQc (C_matrix_dw_coded st); of_LLQc (C_matrix_dw_spec st)]))
+  (* last step of Opticom: (raw coefficients) -> (normalised sum) *)
+  | 4, Lv [cs] => ret (do cs <- get_LQc cs;
+      let n := normalise_coefficients cs in Some (Lv [of_LQc n; of_Qc (sumQ n)]))
+  | _, _ => sx_err 0
+  end.
